@@ -405,7 +405,13 @@ def _extension_layout(i, out):
 def _nonintrospectable(out):
     """a schema marked @nonIntrospectable refuses introspection"""
     for sdl in ("type Query { a: Int } schema @nonIntrospectable { query: Query }",
-                "type T { x: Int } type Query { a: Int t: T } schema @nonIntrospectable { query: Query }"):
+                "type T { x: Int } type Query { a: Int t: T } schema @nonIntrospectable { query: Query }",
+                # ... with `extend` definitions: an operation-only schema extension, a directive-only one, the marker brought by the extension
+                "type Query { a: Int } type Mut { go: Int } schema @nonIntrospectable { query: Query } extend schema { mutation: Mut }",
+                "directive @other on SCHEMA type Query { a: Int } schema @nonIntrospectable { query: Query } extend schema @other",
+                "type Query { a: Int } type Mut { go: Int } schema { query: Query } extend schema @nonIntrospectable { mutation: Mut }",
+                "type Query { a: Int } type Mut { go: Int } type Sub { ev: Int } schema @nonIntrospectable { query: Query } "
+                "extend schema { mutation: Mut } extend schema { subscription: Sub } extend type Query { b: Int }"):
         schema = S.parse_sdl(sdl)
         engine = harness.build_engine(schema, sdl=sdl, resolvers=set())
         scn = Scenario(root={"a": 1})
